@@ -180,6 +180,7 @@ def run(ctx):
     ctx.cov["corr_disagreements"] = bad
     match_correspondence(ctx, [p for p, u in pats if u is None])
     cap_family(ctx)
+    negated_class_through_fake(ctx)
     reuse_family(ctx, [p for p, u in pats if u is None and anchors_only_at_ends(p)])
     schema_path(ctx, [p for p, u in pats if u is None and anchors_only_at_ends(p)])
     for p, u in pats[:6]:
@@ -267,6 +268,31 @@ def reuse_family(ctx, patterns):
                     prev = p
     finally:
         _random.setstate(st)
+
+
+def negated_class_through_fake(ctx):
+    """negated classes built from categories / ranges / literals through the PUBLIC path fake(schema.str.regex(p)) — the
+    module-level generator as the package wires it — with EVERY candidate character chosen once (policy idx:k)"""
+    from d42 import schema
+    pats = [r"[^\w]", r"[^\w\d]", r"[^\w.]", r"[^\d]", r"[^a-zA-Z0-9]", r"[^\w ]{2}", r"x[^\w-]y", r"[^_\W]" if False else r"[^\d_]", r"[^ -/]"]
+    for p in pats:
+        try:
+            s = schema.str.regex(p)
+        except Exception:  # noqa: BLE001
+            continue
+        for k in range(0, 100):
+            (kind, v), log = SR.generate_public(s, SR.make_policy("idx:%d" % k, ctx.rnd))
+            ctx.count("negated_class_fake_cases")
+            if kind != "ok":
+                continue
+            try:
+                ok = fullmatch(p, v) and not validate(s, v).has_errors()
+            except _Timeout:
+                continue
+            if not ok:
+                ctx.violation("schema.str.regex(p) generated a string its own validation rejects / that does not match the entire "
+                              "pattern", pattern=p, generated=v, policy="idx:%d" % k, via="fake(schema.str.regex(p))", negated_class=True)
+                break
 
 
 def schema_path(ctx, patterns):
